@@ -22,6 +22,7 @@ META = {
         "symbolic text characters are ASCII digits / hex digits / 7-bit bytes as stated per harness",
     ],
     "outside": [
+        "archive through the AllocSerializer used by rkyv::to_bytes (the harness uses the plain AlignedSerializer; a timestamp needs neither scratch space nor the shared-pointer map)",
         "arbitrary text of length >= 5 in general form (7 symbolic bytes did not finish in 25 min in the design probe)",
         "print-then-parse identity for arbitrary stamps through core::fmt (symbolic Display output is beyond reach); it is decided for the numeric encoding, and for text on the boundary families",
     ],
@@ -41,7 +42,7 @@ MANIFEST = {
 
 def build(ws, tier, seed, mode):
     d, mounted = common.build_crdt_timestamp_only(ws, mode, ["harness_c09.rs", "harness_c10.rs"])
-    feats = ("verif_replay",) if mode == "replay" else ()
+    feats = ("verif_replay", "rkyv-support") if mode == "replay" else ("rkyv-support",)
     return {"crates": {"crdt": {"dir": d, "features": feats}}, "mounted": mounted}
 
 
@@ -52,6 +53,7 @@ def harnesses(tier, seed):
         h("c10_fields_roundtrip", "new() -> accessors -> duration -> new() is the identity; bit layout 32|8|16|8", "all valid quadruples"),
         h("c10_order_is_lexicographic", "Ord/PartialOrd/Eq on stamps == lexicographic order on (seconds, fractional, counter, node)", "all pairs of u64"),
         h("c10_u64_roundtrip", "from_u64/as_u64 round-trip both ways", "all u64"),
+        h("c10_archive_roundtrip", "rkyv archive of a stamp is its 8-byte little-endian packed form and ArchivedHLCTimestamp::cast returns the stamp", "all valid quadruples"),
         h("c10_parse_kernel_all_values", "from_str never panics and keeps the parsed fields, for every combination of parsed values",
           "all (u64,u8,u16,u8) + per-field failures", covers=2),
         h("c10_parse_structure", "missing/empty/extra fields, signs, non-hex counter are refused; padded text parses", "concrete texts"),
